@@ -78,7 +78,7 @@ func getClientProfile(name string) httpResponseClientProfile {
 func (hc *Coordinator) handleClusterDetail(w http.ResponseWriter, r *http.Request, params httprouter.Params) {
 	// Get cluster config
 	configRoot := "cluster." + params.ByName("cluster")
-	if !viper.IsSet(configRoot) {
+	if !moduleConfigured("cluster", params.ByName("cluster")) {
 		hc.writeErrorResponse(w, r, http.StatusNotFound, "cluster module not found")
 	} else {
 		requestInfo := makeRequestInfo(r)
